@@ -44,9 +44,20 @@ def corpus():
 
 LIT_HEAD = "~Version\nVERS. 2.0 : v\nWRAP. NO : w\n~Well\nSTRT.M 1.0 : s\nSTOP.M 2.0 : s\nSTEP.M 0.5 : s\nNULL. -999.25 : n\n~Curves\nDEPT.M : d\nA.U : a\n"
 LIT_TAIL = "~ASCII\n1.0 10.0\n1.5 11.0\n2.0 12.0\n"
+LIT_DLM = "~Version\nVERS. 2.0 : v\nWRAP. NO : w\nDLM. %s : d\n~Well\nSTRT.M 1.0 : s\nSTOP.M 1.5 : s\nSTEP.M 0.5 : s\nNULL. -999.25 : n\n~Curves\nDEPT.M : d\nLITH. : l\nA.U : a\n"
 LITERAL_PAIRS = [   # witnesses of known findings and documented tolerances: always part of the grid
     (LIT_HEAD + "~Parameter\nQ.e:bc  (RT) : 12-34-12-34W5M\n" + LIT_TAIL, LIT_HEAD + "~Parameter\nQ.e:bc  (RT) :12-34-12-34W5M\n" + LIT_TAIL, ["pad_fields"]),
     (LIT_HEAD + "~Other\nline one\nline two\n" + LIT_TAIL, LIT_HEAD + "   ~Other\n  line one\nline two  \n" + LIT_TAIL, ["pad_lines"]),
+    # text cells and padded COMMA / TAB delimiters (known finding KF-C09-text-cell-keeps-delimiter-padding)
+    (LIT_DLM % "COMMA" + "~ASCII\n1.0,SAND,10.0\n1.5,shale,11.0\n", LIT_DLM % "COMMA" + "~ASCII\n1.0 , SAND , 10.0\n1.5 , shale , 11.0\n", ["redelimit"]),
+    (LIT_DLM % "TAB" + "~ASCII\n1.0\tSAND\t10.0\n1.5\tshale\t11.0\n", LIT_DLM % "TAB" + "~ASCII\n1.0 \t SAND \t 10.0\n1.5 \t shale \t 11.0\n", ["redelimit"]),
+] + [
+    # blanks before the colon that ends a ~Parameter value of two digits, the description holding a further colon (values that are no hour)
+    (LIT_HEAD + "~Parameter\nRUN . %s : Run number: main pass\n" % v + LIT_TAIL, LIT_HEAD + "~Parameter\nRUN . %s: Run number: main pass\n" % v + LIT_TAIL, ["pad_fields"])
+    for v in ("15", "07", "24", "29", "35", "99")
+] + [
+    (LIT_HEAD + "~Parameter\nRUN .\t%s : Run number: main pass\n" % v + LIT_TAIL, LIT_HEAD + "~Parameter\nRUN . %s : Run number: main pass\n" % v + LIT_TAIL, ["pad_fields"])
+    for v in ("15", "12", "07", "24")
 ]
 
 
@@ -115,6 +126,11 @@ def gen_abstract(rng, wrap, dlm, ncurves=None):
         for j in range(1, c):
             row.append(rng.choice(["%.3f" % rng.uniform(-500, 500), "%d" % rng.randint(-99, 999), "-999.25", "%.4E" % rng.uniform(1, 1e6)]))
         rows.append(row)
+    if c >= 2 and rng.random() < 0.25:
+        # a column of text (lithology codes, flags): presentation must not change it either
+        tj = rng.randint(1, c - 1)
+        for i, row in enumerate(rows):
+            row[tj] = rng.choice(["SAND", "shale", "Q%d" % i, "lime-stone", "n/a", "x_%d" % i])
     a = {"kind": "A", "title": "~ASCII", "rows": rows}
     tail = []
     if rng.random() < 0.3:
@@ -325,6 +341,8 @@ def run_case(case, ctx):
             key = "result-changed:%s:%s" % ("+".join(sorted(applied)), where)
             if "pad_fields" in applied and kf_param_unit_colon(sb, st):
                 key = "result-changed:param-unit-colon-with-time-like-separator"
+            if "redelimit" in applied and text_cells_differ_only_by_padding(b, t, diffs):
+                key = "result-changed:text-cell-keeps-delimiter-padding"
             ctx.violation(key, "engine=%s: %s" % (engine, diffs[:4]), detail)
     for tname in applied:
         ctx.count("t_" + tname)
@@ -362,6 +380,26 @@ def rewrap_corpus(ctx, rng, base, lines):
         for j in range(0, c, w):
             out.append(" " + " ".join(step[j:j + w]))
     return lines[:i + 1] + out + lines[end:]
+
+
+def text_cells_differ_only_by_padding(b, t, diffs):
+    """All differences are samples of text curves that are equal once surrounding blanks are stripped."""
+    if not diffs or not all(d.startswith("/curves") for d in diffs) or len(b.curves) != len(t.curves):
+        return False
+    seen = False
+    for cb, ct in zip(list.__iter__(b.curves), list.__iter__(t.curves)):
+        db, dt = np.asarray(cb.data), np.asarray(ct.data)
+        if db.shape != dt.shape:
+            return False
+        if db.dtype.kind in "USO" or dt.dtype.kind in "USO":
+            lb, lt = [str(x) for x in db.tolist()], [str(x) for x in dt.tolist()]
+            if lb != lt:
+                if [x.strip() for x in lb] != [x.strip() for x in lt]:
+                    return False
+                seen = True
+        elif not np.array_equal(db, dt, equal_nan=True):
+            return False
+    return seen
 
 
 def kf_param_unit_colon(sb, st):
